@@ -110,7 +110,7 @@ Section CollReads.
   Notation Rep := (@RepC V compact).
   Notation get := (aget bytes_eqb).
 
-  Lemma clear_ref clock lazy (c : coll V) a : Rep clock c -> sim c a -> sim (clear_coll lazy c) (@nil (bytes * V)) \/ c_meta c = None.
+  Lemma clear_ref clock lazy tests (c : coll V) a : Rep clock c -> sim c a -> sim (clear_coll lazy tests c) (@nil (bytes * V)) \/ c_meta c = None.
   Proof.
     intros R S. unfold clear_coll. destruct (c_meta c) as [m|] eqn:E; [left|right; reflexivity].
     unfold sim, abs_c, exists_coll. cbn [c_meta]. apply meq_refl. constructor.
@@ -138,7 +138,7 @@ Section HashRef2.
     destruct a as [|p a']; cbn [length] in Hs.
     - assert (st_size c =? 0 = true) as -> by lia. cbn [fst snd]. split; [reflexivity|exact S].
     - assert (st_size c =? 0 = false) as -> by lia. cbn [fst snd]. split; [reflexivity|].
-      destruct (clear_ref compact clock (lazy_clear compact ts (st_ver c)) c (p :: a') R S) as [H|H]; [exact H|].
+      destruct (clear_ref compact clock (lazy_clear compact ts (st_ver c)) true c (p :: a') R S) as [H|H]; [exact H|].
       exfalso. unfold st_size in Hs. rewrite H in Hs. lia.
   Qed.
 
@@ -294,7 +294,7 @@ Section SetRef.
     destruct a as [|p a']; cbn [length] in Hs.
     - assert (st_size c =? 0 = true) as -> by lia. cbn [fst snd]. split; [reflexivity|exact S].
     - assert (st_size c =? 0 = false) as -> by lia. cbn [fst snd]. split; [reflexivity|].
-      destruct (clear_ref compact clock (lazy_clear compact ts (st_ver c)) c (p :: a') R S) as [H|H]; [exact H|].
+      destruct (clear_ref compact clock (lazy_clear compact ts (st_ver c)) false c (p :: a') R S) as [H|H]; [exact H|].
       exfalso. unfold st_size in Hs. rewrite H in Hs. lia.
   Qed.
 
